@@ -88,6 +88,21 @@ def _params(terms, exclude):
     return [seen[k] for k in sorted(seen)]
 
 
+def _mentions(t, var):
+    stack = [t]
+    seen = set()
+    while stack:
+        x = stack.pop()
+        if x.get_id() in seen:
+            continue
+        seen.add(x.get_id())
+        if z3.eq(x, var):
+            return True
+        if z3.is_app(x):
+            stack.extend(x.children())
+    return False
+
+
 def formal_sum_dom(ctx, root, dom, summand):
     """Σ_{u in root, dom(u)} summand(u) where dom/summand may mention group-key constants / other generic
     indices: the symbol is an uninterpreted function of those parameters."""
@@ -97,6 +112,15 @@ def formal_sum_dom(ctx, root, dom, summand):
     for d in reg:
         if d.space is root and z3.eq(d.dom, dom) and z3.eq(d.summand, summand):
             return d.sym, d
+    # a sum of integers read as reals is the integer sum read as a real
+    if z3.is_app(summand) and summand.decl().kind() == z3.Z3_OP_TO_REAL:
+        inner, dinner = formal_sum_dom(ctx, root, dom, summand.arg(0))
+        return z3.ToReal(inner) if z3.is_int(inner) else inner, dinner
+    # sum_linear: a factor that does not depend on the summation index moves out of the sum
+    if z3.is_app(summand) and summand.decl().kind() == z3.Z3_OP_DIV and not _mentions(summand.arg(1), root.u):
+        inner, dinner = formal_sum_dom(ctx, root, dom, summand.arg(0))
+        _use("sum_linear")
+        return real(inner) / summand.arg(1), dinner
     if (z3.is_int_value(summand) or z3.is_rational_value(summand)) and z3.is_true(z3.simplify(summand == 0)):
         # a sum of zeros is zero (sum_linear with coefficient 0)
         zero = z3.IntVal(0) if z3.is_int(summand) else z3.RealVal(0)
@@ -205,6 +229,8 @@ def _rows_cond(axis, cond):
 
 
 def reduce_minmax(interp, v, axis, which):
+    """min / max along an axis: a symbol that bounds every entry (generic instances + quantified fact) and is
+    attained by some row when the axis is not empty"""
     ax = _axis(v, axis)
     rest = tuple(a for i, a in enumerate(v.axes) if i != ax)
     idx = [root_space(x).u for x in rest if x is not ONE]
@@ -215,25 +241,92 @@ def reduce_minmax(interp, v, axis, which):
         sym = f(*idx)
     else:
         sym = z3.Const(fresh_name(which), sort)
-    # the extremum bounds the generic entry (instance of the defining property); attained by some entry
     space_axis = v.axes[ax]
-    dom = z3.BoolVal(True)
-    a = space_axis
-    while isinstance(a, SubSpace):
-        dom = z3.And(a.mask, dom)
-        a = a.parent
-    root = a
+    from .frames import RowAxis
+
+    base = space_axis
+    while isinstance(base, SubSpace):
+        base = base.parent
+    multi = isinstance(base, RowAxis) and len(base.doms) > 1
+    if multi:
+        raise Undecided("min/max over a concatenated frame")
+    root, dom = _rows_cond(space_axis, z3.BoolVal(True))
+    if isinstance(base, RowAxis) and base.sel is not None:
+        t = base.seg_term(t, 0)
+    bound = (lambda tt: sym <= tt) if which == "min" else (lambda tt: sym >= tt)
     for u in (root.u, root.u2):
-        tu = z3.substitute(t, (root.u, u))
-        du = z3.substitute(dom, (root.u, u))
-        interp.ctx.assume(z3.Implies(du, sym <= tu if which == "min" else sym >= tu))
+        interp.ctx.assume(z3.Implies(z3.substitute(dom, (root.u, u)), bound(z3.substitute(t, (root.u, u)))))
     w = z3.Int(fresh_name("argext"))
-    n = space_axis.n if z3.is_expr(space_axis.n) else z3.IntVal(space_axis.n)
-    interp.ctx.assume(
-        z3.Implies(n > 0, z3.And(w >= 0, w < root.n, z3.substitute(dom, (root.u, w)), sym == z3.substitute(t, (root.u, w))))
-    )
-    out = V(sym, rest, None, v.nan, v.inf)
-    out.meta = (which, v, space_axis, w)
+    nonempty = z3.Bool(fresh_name("nonempty"))
+    # non-empty <=> some row is in the domain; the extremum is attained by a row (w) when non-empty
+    interp.ctx.assume(z3.Implies(nonempty, z3.And(w >= 0, w < root.n, z3.substitute(dom, (root.u, w)), sym == z3.substitute(t, (root.u, w)))))
+
+    def instantiate(ctx, i):
+        """the defining facts of the extremum at row index i (ghost instantiation instead of a quantifier)"""
+        ins = z3.And(i >= 0, i < root.n, z3.substitute(dom, (root.u, i)))
+        ctx.assume(z3.Implies(ins, z3.And(nonempty, bound(z3.substitute(t, (root.u, i))))))
+
+    instantiate(interp.ctx, root.u)
+    instantiate(interp.ctx, root.u2)
+    out = V(sym, rest, None, z3.Not(nonempty), v.inf)
+    out.meta = (which, dict(v=v, axis=space_axis, witness=w, nonempty=nonempty, instantiate=instantiate, dom=dom, root=root))
+    interp.ctx.__dict__.setdefault("_extrema", []).append(out.meta[1])
+    return out
+
+
+def cumsum_sorted(interp, v):
+    """Series.cumsum() of a weight column of a frame sorted by one score column (ascending, stable).
+    Assumed contract = the prefix-sum lemmas (lean/FrameSums.lean prefix_*), for non-negative weights, with
+    Wle(x) := Σ_{rows, score <= x} w :
+      (a) cum(r) <= Wle(score(r))                 (prefix_ge: the prefix of r holds only scores <= score(r))
+      (b) cum(r) >= w(r), cum non-decreasing in score: score(r) < score(r') => cum(r) + w(r') <= cum(r')
+      (c) every score value present has a LAST tied row l with cum(l) = Wle(score)   (prefix_last_tie)
+      (d) Wle is non-decreasing and bounded by the total weight, which is attained by the last row.
+    Side condition (emitted as an obligation): the weights are non-negative."""
+    from .frames import RowAxis
+
+    ax = v.axes[0] if len(v.axes) == 1 else None
+    if not isinstance(ax, RowAxis) or len(ax.doms) != 1 or not getattr(ax, "sortkey", None) or len(ax.sortkey) != 1:
+        raise Undecided("cumsum of something that is not a column of a frame sorted by one key")
+    _use("prefix_le / prefix_ge / prefix_last_tie")
+    root, dom = ax.root, ax.doms[0]
+    sc, w = ax.sortkey[0], real(v.t)
+    ctx = interp.ctx
+    ctx.oblige("cumsum.side.weights_non_negative", z3.Implies(z3.And(*root.facts(), dom), w >= 0), kind="lemma-side")
+    cum = z3.Function(fresh_name("cum"), z3.IntSort(), z3.RealSort())
+    Wle = z3.Function(fresh_name("Wle"), sc.sort(), z3.RealSort())
+    last = z3.Function(fresh_name("last_tie"), z3.IntSort(), z3.IntSort())
+    total, dtot = formal_sum_dom(ctx, root, dom, w)
+    sx = lambda t, i: z3.substitute(t, (root.u, i))  # noqa: E731
+    inr = lambda i: z3.And(i >= 0, i < root.n, sx(dom, i))  # noqa: E731
+    m = z3.Int(fresh_name("lastrow"))
+    seen = []
+
+    def instantiate(c, i):
+        """prefix-sum facts at row index i (and pairwise with every index instantiated before)"""
+        li = last(i)
+        c.assume(z3.Implies(inr(i), z3.And(cum(i) <= Wle(sx(sc, i)), cum(i) >= sx(w, i), cum(i) <= total, Wle(sx(sc, i)) <= total, Wle(sx(sc, i)) >= 0)))
+        c.assume(z3.Implies(inr(i), z3.And(inr(li), sx(sc, li) == sx(sc, i), cum(li) == Wle(sx(sc, i)))))
+        c.assume(z3.Implies(inr(i), z3.And(inr(m), cum(m) == total)))
+        for j in seen:
+            for (p, r) in ((i, j), (j, i)):
+                c.assume(z3.Implies(z3.And(inr(p), inr(r), sx(sc, p) < sx(sc, r)), cum(p) + sx(w, r) <= cum(r)))
+                c.assume(z3.Implies(sx(sc, p) <= sx(sc, r), Wle(sx(sc, p)) <= Wle(sx(sc, r))))
+        seen.append(i)
+
+    def wle_at(c, xterm):
+        """monotonicity / bounds of Wle at an arbitrary score value"""
+        c.assume(z3.And(Wle(xterm) <= total, Wle(xterm) >= 0))
+        for j in seen:
+            c.assume(z3.Implies(sx(sc, j) <= xterm, Wle(sx(sc, j)) <= Wle(xterm)))
+            c.assume(z3.Implies(xterm <= sx(sc, j), Wle(xterm) <= Wle(sx(sc, j))))
+            c.assume(z3.Implies(xterm == sx(sc, j), Wle(xterm) == Wle(sx(sc, j))))
+
+    for i0 in (root.u, root.u2, m):
+        instantiate(ctx, i0)
+    out = V(cum(root.u), v.axes, v.series)
+    out.meta = ("cumsum", dict(cum=cum, Wle=Wle, last=last, total=total, score=sc, weight=w, root=root, dom=dom, lastrow=m, instantiate=instantiate, wle_at=wle_at))
+    ctx.__dict__.setdefault("_cumsums", []).append(out.meta[1])
     return out
 
 
